@@ -812,6 +812,319 @@ theorem c18_mu2flux_value (mu refN share phi unit : K) (h : refN ≠ 0) :
 
 end field
 
+
+/-! ## 7. deepening round: position angle, table = concatenation, no-error, weights ≥ 0 -/
+
+namespace C18
+
+theorem sin_atan2 (y x : ℝ) : Real.sin (Atan2.atan2 y x) = y / Real.sqrt (x * x + y * y) := by
+  rw [atan2_def, Complex.sin_arg, Complex.norm_def, Complex.normSq_mk]
+
+/-- two values of `atan2` with the same cosine and sine are equal -/
+theorem atan2_eq_of_cos_sin (y1 x1 y2 x2 : ℝ)
+    (hc : Real.cos (Atan2.atan2 y1 x1) = Real.cos (Atan2.atan2 y2 x2))
+    (hs : Real.sin (Atan2.atan2 y1 x1) = Real.sin (Atan2.atan2 y2 x2)) :
+    (Atan2.atan2 y1 x1 : ℝ) = Atan2.atan2 y2 x2 := by
+  rw [atan2_def, atan2_def] at *
+  have h1 := Complex.arg_cos_add_sin_mul_I (Complex.arg_mem_Ioc (⟨x1, y1⟩ : ℂ))
+  have h2 := Complex.arg_cos_add_sin_mul_I (Complex.arg_mem_Ioc (⟨x2, y2⟩ : ℂ))
+  rw [← h1, ← h2]
+  simp only [← Complex.ofReal_cos, ← Complex.ofReal_sin, hc, hs]
+
+/-- spherical-triangle algebra for the bearing of the offset point -/
+theorem offset_pa_alg (cc sc ca sa cB sB : ℝ) (h1 : cc ^ 2 + sc ^ 2 = 1) (h2 : ca ^ 2 + sa ^ 2 = 1)
+    (h3 : cB ^ 2 + sB ^ 2 = 1) (hsc : 0 < sc) (hsa : 0 < sa) :
+    let b := cc * ca + sc * sa * cB
+    let A := (Atan2.atan2 (sa * sB * sc) (ca - b * cc) : ℝ)
+    0 < 1 - b ^ 2 →
+    b * sc - Real.sqrt (1 - b ^ 2) * cc * Real.cos A = sa * cB ∧
+    Real.sin A * Real.sqrt (1 - b ^ 2) = sa * sB := by
+  intro b A hpos
+  have key : (ca - b * cc) ^ 2 + (sa * sB * sc) ^ 2 = sc ^ 2 * (1 - b ^ 2) := by
+    simp only [b]
+    linear_combination ((cc * ca + sc * sa * cB) ^ 2 - ca ^ 2) * h1 + sc ^ 2 * h2 + sa ^ 2 * sc ^ 2 * h3
+  have hr : 0 < Real.sqrt (1 - b ^ 2) := Real.sqrt_pos.mpr hpos
+  have e : (ca - b * cc) * (ca - b * cc) + sa * sB * sc * (sa * sB * sc) = sc ^ 2 * (1 - b ^ 2) := by
+    rw [← key]; ring
+  have hne : ca - b * cc ≠ 0 ∨ sa * sB * sc ≠ 0 := by
+    by_contra hcon
+    push Not at hcon
+    have : sc ^ 2 * (1 - b ^ 2) = 0 := by rw [← key, hcon.1, hcon.2]; ring
+    have : 0 < sc ^ 2 * (1 - b ^ 2) := by positivity
+    linarith
+  have hcosA : Real.cos A = (ca - b * cc) / (sc * Real.sqrt (1 - b ^ 2)) := by
+    simp only [A]
+    rw [cos_atan2 _ _ hne, e, Real.sqrt_mul (by positivity), Real.sqrt_sq (le_of_lt hsc)]
+  have hsinA : Real.sin A = (sa * sB * sc) / (sc * Real.sqrt (1 - b ^ 2)) := by
+    simp only [A]
+    rw [sin_atan2, e, Real.sqrt_mul (by positivity), Real.sqrt_sq (le_of_lt hsc)]
+  constructor
+  · rw [hcosA]
+    field_simp
+    simp only [b]
+    linear_combination (-(sa * cB * sc) - cc * ca + (cc * ca + sc * sa * cB)) * h1 * 0 + (cc * ca + sc * sa * cB) * h1
+  · rw [hsinA]
+    field_simp
+
+end C18
+
+/-- **`offset_by` keeps the bearing**: seen from the start point, the offset point lies at position angle `B`
+(regular branch, positive distance `sin a > 0`, end point not at a pole). -/
+theorem c18_offset_position_angle (lon lat B a : ℝ) (hpole : ¬ Real.cos lat < 1e-12) (ha : 0 < Real.sin a)
+    (hout : 0 < Real.cos (offsetBy lon lat B a).2) :
+    Real.cos (posAngle lon lat (offsetBy lon lat B a).1 (offsetBy lon lat B a).2) = Real.cos B ∧
+    Real.sin (posAngle lon lat (offsetBy lon lat B a).1 (offsetBy lon lat B a).2) = Real.sin B := by
+  have hsc : 0 < Real.cos lat := by
+    have : (0 : ℝ) < 1e-12 := by norm_num
+    exact lt_of_lt_of_le this (not_lt.mp hpole)
+  have h1 := Real.sin_sq_add_cos_sq lat
+  have h2 := Real.cos_sq_add_sin_sq a
+  have h3 := Real.cos_sq_add_sin_sq B
+  obtain ⟨hb1, hb2, _⟩ := C18.offset_alg (Real.sin lat) (Real.cos lat) (Real.cos a) (Real.sin a)
+    (Real.cos B) (Real.sin B) h1 h2 h3 hsc
+  -- the end point: latitude arcsin b, longitude lon + A
+  have hlat : (offsetBy lon lat B a).2
+      = Real.arcsin (Real.sin lat * Real.cos a + Real.cos lat * Real.sin a * Real.cos B) := by
+    unfold offsetBy; simp only [TranscReal.sin_def, TranscReal.cos_def, TranscReal.asin_def]
+  have hlon : (offsetBy lon lat B a).1 = lon + Atan2.atan2 (Real.sin a * Real.sin B * Real.cos lat)
+      (Real.cos a - (Real.sin lat * Real.cos a + Real.cos lat * Real.sin a * Real.cos B) * Real.sin lat) := by
+    unfold offsetBy
+    simp only [TranscReal.sin_def, TranscReal.cos_def, TranscReal.pi_def]
+    rw [if_neg hpole]
+  rw [hlat, Real.cos_arcsin] at hout
+  have hpos : 0 < 1 - (Real.sin lat * Real.cos a + Real.cos lat * Real.sin a * Real.cos B) ^ 2 :=
+    Real.sqrt_pos.mp hout
+  obtain ⟨ex, ey⟩ := C18.offset_pa_alg (Real.sin lat) (Real.cos lat) (Real.cos a) (Real.sin a)
+    (Real.cos B) (Real.sin B) h1 h2 h3 hsc ha hpos
+  unfold posAngle
+  simp only [TranscReal.sin_def, TranscReal.cos_def]
+  rw [hlat, hlon, Real.sin_arcsin hb1 hb2, Real.cos_arcsin, add_sub_cancel_left]
+  have hx : (Real.sin lat * Real.cos a + Real.cos lat * Real.sin a * Real.cos B) * Real.cos lat
+      - Real.sqrt (1 - (Real.sin lat * Real.cos a + Real.cos lat * Real.sin a * Real.cos B) ^ 2) * Real.sin lat
+        * Real.cos (Atan2.atan2 (Real.sin a * Real.sin B * Real.cos lat)
+          (Real.cos a - (Real.sin lat * Real.cos a + Real.cos lat * Real.sin a * Real.cos B) * Real.sin lat))
+      = Real.sin a * Real.cos B := ex
+  rw [hx, ey]
+  have hne : Real.sin a * Real.cos B ≠ 0 ∨ Real.sin a * Real.sin B ≠ 0 := by
+    by_contra hcon
+    push Not at hcon
+    have hc : Real.cos B = 0 := by
+      rcases mul_eq_zero.mp hcon.1 with h | h
+      · exact absurd h (ne_of_gt ha)
+      · exact h
+    have hs : Real.sin B = 0 := by
+      rcases mul_eq_zero.mp hcon.2 with h | h
+      · exact absurd h (ne_of_gt ha)
+      · exact h
+    rw [hc, hs] at h3; norm_num at h3
+  have hnorm : Real.sqrt (Real.sin a * Real.cos B * (Real.sin a * Real.cos B)
+      + Real.sin a * Real.sin B * (Real.sin a * Real.sin B)) = Real.sin a := by
+    have : Real.sin a * Real.cos B * (Real.sin a * Real.cos B) + Real.sin a * Real.sin B * (Real.sin a * Real.sin B)
+        = Real.sin a ^ 2 := by linear_combination Real.sin a ^ 2 * h3
+    rw [this, Real.sqrt_sq (le_of_lt ha)]
+  constructor
+  · rw [C18.cos_atan2 _ _ hne, hnorm]; field_simp
+  · rw [C18.sin_atan2, hnorm]; field_simp
+
+/-- **relocation keeps the position angle, too**: the bearing from the source to the relocated event is the
+bearing from the true to the reconstructed direction — as an angle in (−π, π], not only up to 2π — whenever the
+two directions differ (`sin sep > 0`), the source is off the poles and the relocated event is not at a pole.
+Together with `c18_rotation_preserves_sep_angle`: the whole true-to-reco offset is kept. -/
+theorem c18_rotation_preserves_position_angle (srcRa srcDec tRa tDec rRa rDec : ℝ)
+    (hpole : ¬ Real.cos srcDec < 1e-12) (hsep : 0 < Real.sin (sepVincenty tRa tDec rRa rDec))
+    (hout : 0 < Real.cos (relocate srcRa srcDec tRa tDec rRa rDec).2) :
+    posAngle srcRa srcDec (relocate srcRa srcDec tRa tDec rRa rDec).1 (relocate srcRa srcDec tRa tDec rRa rDec).2
+      = posAngle tRa tDec rRa rDec := by
+  obtain ⟨hc, hs⟩ := c18_offset_position_angle srcRa srcDec (posAngle tRa tDec rRa rDec)
+    (sepVincenty tRa tDec rRa rDec) hpole hsep hout
+  unfold relocate
+  have e1 : ∃ y x, posAngle srcRa srcDec
+      (offsetBy srcRa srcDec (posAngle tRa tDec rRa rDec) (sepVincenty tRa tDec rRa rDec)).1
+      (offsetBy srcRa srcDec (posAngle tRa tDec rRa rDec) (sepVincenty tRa tDec rRa rDec)).2
+      = (Atan2.atan2 y x : ℝ) := ⟨_, _, rfl⟩
+  have e2 : ∃ y x, posAngle tRa tDec rRa rDec = (Atan2.atan2 y x : ℝ) := ⟨_, _, rfl⟩
+  obtain ⟨y1, x1, h1⟩ := e1
+  obtain ⟨y2, x2, h2⟩ := e2
+  rw [h1, h2] at hc hs ⊢
+  exact C18.atan2_eq_of_cos_sin y1 x1 y2 x2 hc hs
+
+namespace C18
+
+/-- the fold over the (group, dataset) pairs succeeds iff every pair succeeds; the result is the concatenation
+in the order of the pairs -/
+theorem foldl_table_iff {α β : Type} (f : α → Option (List β)) :
+    ∀ (l : List α) (a0 tab : List β),
+      l.foldl (tableStep f) (some a0) = some tab ↔
+        ∃ parts : List (List β), List.Forall₂ (fun x p => f x = some p) l parts ∧ tab = a0 ++ parts.flatten
+  | [], a0, tab => by
+    simp only [List.foldl_nil, Option.some.injEq, List.forall₂_nil_left_iff]
+    constructor
+    · rintro rfl; exact ⟨[], rfl, by simp⟩
+    · rintro ⟨parts, rfl, h⟩; simp at h; exact h.symm
+  | x :: l, a0, tab => by
+    simp only [List.foldl_cons]
+    cases hf : f x with
+    | none =>
+      have e : tableStep f (some a0) x = none := by simp [tableStep, hf]
+      have hn : ∀ (l : List α), l.foldl (tableStep f) (none : Option (List β)) = none := by
+        intro l; induction l with
+        | nil => rfl
+        | cons z zs ih => simpa [List.foldl_cons, tableStep] using ih
+      rw [e, hn]
+      constructor
+      · intro h; exact absurd h (by simp)
+      · rintro ⟨parts, hp, _⟩
+        cases hp with
+        | cons h1 _ => rw [hf] at h1; exact absurd h1 (by simp)
+    | some t =>
+      have e : tableStep f (some a0) x = some (a0 ++ t) := by simp [tableStep, hf]
+      rw [e, foldl_table_iff f l (a0 ++ t) tab]
+      constructor
+      · rintro ⟨parts, hp, rfl⟩
+        exact ⟨t :: parts, List.Forall₂.cons hf hp, by simp⟩
+      · rintro ⟨parts, hp, rfl⟩
+        cases hp with
+        | cons h1 h2 =>
+          rw [hf] at h1
+          simp only [Option.some.injEq] at h1
+          subst h1
+          exact ⟨_, h2, by simp⟩
+
+end C18
+
+section table
+set_option linter.unusedSectionVars false
+variable {F : Type} [Add F] [Sub F] [Mul F] [Div F] [Neg F] [OfNat F 0] [OfNat F 2]
+  [LE F] [DecidableLE F] [Transc F]
+
+/-- the pairs in the order of `itertools.product(enumerate(shg_list), enumerate(data_list))` -/
+def C18.pairs (grps : List (Grp F)) (nDs : Nat) : List ((Grp F × Nat) × Nat) :=
+  grps.zipIdx.flatMap fun gk => (List.range nDs).map (fun j => (gk, j))
+
+/-- **the candidate table is exactly the concatenation of the per-(group, dataset) selections, group-major, in
+order** — and it exists iff every selection exists.  (Soundness `c18_table_sound`, completeness and the
+row order the CDF index relies on, in one statement.) -/
+theorem c18_table_eq_concat (grps : List (Grp F)) (nDs : Nat) (evs : Nat → Nat → List (Ev F)) (lt : Nat → F) (fac : F)
+    (tab : List (Cand × F)) :
+    tableRaw grps nDs evs lt fac = some tab ↔
+      ∃ parts : List (List (Cand × F)),
+        List.Forall₂ (fun (gj : (Grp F × Nat) × Nat) p =>
+          groupCands gj.1.2 gj.2 gj.1.1 (evs gj.1.2 gj.2) (lt gj.2) fac = some p) (C18.pairs grps nDs) parts ∧
+        tab = parts.flatten := by
+  unfold tableRaw C18.pairs
+  rw [C18.foldl_table_iff]
+  simp only [List.nil_append]
+
+/-- **completeness**: every row selected for an existing group and dataset is in the table -/
+theorem c18_table_complete (grps : List (Grp F)) (nDs : Nat) (evs : Nat → Nat → List (Ev F)) (lt : Nat → F) (fac : F)
+    (tab : List (Cand × F)) (h : tableRaw grps nDs evs lt fac = some tab)
+    (g j : Nat) (G : Grp F) (hG : grps[g]? = some G) (hj : j < nDs) :
+    ∃ t, groupCands g j G (evs g j) (lt j) fac = some t ∧ ∀ cw ∈ t, cw ∈ tab := by
+  obtain ⟨parts, hp, rfl⟩ := (c18_table_eq_concat grps nDs evs lt fac tab).mp h
+  have hmem : ((G, g), j) ∈ C18.pairs grps nDs := by
+    unfold C18.pairs
+    simp only [List.mem_flatMap, List.mem_map, List.mem_range]
+    exact ⟨(G, g), List.mem_zipIdx_iff_getElem?.mpr hG, j, hj, rfl⟩
+  obtain ⟨i, hi, hget⟩ := List.getElem_of_mem hmem
+  have hlen := hp.length_eq
+  have hi' : i < parts.length := by rw [← hlen]; exact hi
+  have := List.forall₂_iff_get.mp hp |>.2 i hi hi'
+  simp only [List.get_eq_getElem, hget] at this
+  refine ⟨parts[i], this, ?_⟩
+  intro cw hcw
+  exact List.mem_flatten.mpr ⟨parts[i], List.getElem_mem hi', hcw⟩
+
+end table
+
+section field
+variable {K : Type} [Field K] [LinearOrder K] [IsStrictOrderedRing K] [Transc K]
+
+/-- **the candidate weights are non-negative** when the inputs are: MC weights, flux values, source weights,
+live times ≥ 0, unit factors ≥ 0, half band width > 0 (π > 0 for the scalar's `Transc` instance).  This
+discharges hypothesis `hw` of `c18_injected_from_band` from the inputs. -/
+theorem c18_table_weights_nonneg (hpi : (0 : K) < Transc.pi)
+    (grps : List (Grp K)) (nDs : Nat) (evs : Nat → Nat → List (Ev K)) (lt : Nat → K) (fac : K)
+    (raw : List (Cand × K)) (hraw : tableRaw grps nDs evs lt fac = some raw)
+    (hG : ∀ G ∈ grps, 0 < G.hbw ∧ 0 ≤ G.unit ∧ ∀ s ∈ G.srcs, 0 ≤ s.2)
+    (hE : ∀ g j, ∀ e ∈ evs g j, 0 ≤ e.mcw ∧ 0 ≤ e.f) (hlt : ∀ j, 0 ≤ lt j) (hfac : 0 ≤ fac) :
+    ∀ cw ∈ raw, 0 ≤ cw.2 := by
+  intro cw hcw
+  obtain ⟨G, t, hGg, _, hgc, hmt⟩ := c18_table_sound grps nDs evs lt fac raw hraw cw hcw
+  obtain ⟨L, U, src, ev, _, _, _, hsrc, hev, _, _, _, hwt⟩ := C18.groupCands_mem _ _ G _ _ fac t hgc cw hmt
+  obtain ⟨hw, hu, hs⟩ := hG G (List.mem_of_getElem? hGg)
+  have hsw := hs src (List.mem_of_getElem? hsrc)
+  obtain ⟨hm, hf⟩ := hE _ _ ev (List.mem_of_getElem? hev)
+  have hom : 0 < omega (band src.1 G.hbw L U) := by
+    unfold omega band
+    simp only
+    have : src.1 + shiftLinear src.1 G.hbw L U + G.hbw - (src.1 + shiftLinear src.1 G.hbw L U - G.hbw) = 2 * G.hbw := by ring
+    rw [this]; positivity
+  rw [hwt]
+  unfold candWeight
+  have := hlt cw.1.ds
+  positivity
+
+end field
+
+section gen
+set_option linter.unusedSectionVars false
+variable {K : Type} [Field K] [LinearOrder K] [IsStrictOrderedRing K]
+
+namespace C18
+
+theorem genShgs_all_valid (cands : List Cand) (cdf : List K) (valid : Nat → Bool) (ds : Nat)
+    (mrows : List (Nat × Cand)) (hv : ∀ rc ∈ mrows, valid rc.1 = true) :
+    ∀ (gs : List Nat) (us : List K), ∃ rows, genShgs true cands cdf valid ds mrows gs us = some (rows, us)
+  | [], us => ⟨[], rfl⟩
+  | g :: gs, us => by
+    obtain ⟨rest, hr⟩ := genShgs_all_valid cands cdf valid ds mrows hv gs us
+    have hk : (mrows.filter (fun rc => rc.2.ds == ds && rc.2.shg == g)).countP (fun rc => !valid rc.1) = 0 := by
+      rw [List.countP_eq_zero]
+      intro rc hrc
+      simp [hv rc (List.mem_of_mem_filter hrc)]
+    refine ⟨mrows.filter (fun rc => rc.2.ds == ds && rc.2.shg == g) ++ rest, ?_⟩
+    simp only [genShgs, genGroup, hk, if_true, hr]
+
+theorem genDss_all_valid (cands : List Cand) (cdf : List K) (valid : Nat → Bool)
+    (mrows : List (Nat × Cand)) (hv : ∀ rc ∈ mrows, valid rc.1 = true) :
+    ∀ (dl : List Nat) (us : List K), ∃ out, genDss true cands cdf valid mrows dl us = some (out, us)
+  | [], us => ⟨[], rfl⟩
+  | d :: dl, us => by
+    obtain ⟨rows, hr⟩ := genShgs_all_valid cands cdf valid d mrows hv
+      (uniq ((mrows.filter (fun rc => rc.2.ds == d)).map (·.2.shg))) us
+    obtain ⟨rest, hrest⟩ := genDss_all_valid cands cdf valid mrows hv dl us
+    exact ⟨(d, rows) :: rest, by simp only [genDss, hr, hrest]⟩
+
+end C18
+
+/-- **no error and no redraw when nothing drawable is invalid** (in particular without validity ranges): one
+weight per candidate (non-negative, positive sum), deviates in `[0,1)`, at least `n` of them, and every candidate
+of positive weight valid ⇒ `generate` returns, reports `n` and consumes exactly `n` deviates.  (With rejection,
+termination depends on the deviates: assumption, see the open finding.) -/
+theorem c18_generate_no_error (cands : List Cand) (wn : List K) (valid : Nat → Bool) (n : Nat) (us : List K)
+    (hlen : cands.length = wn.length) (hnn : ∀ x ∈ wn, 0 ≤ x) (hs : 0 < wn.sum)
+    (hu : ∀ u ∈ us, 0 ≤ u ∧ u < 1) (hn : n ≤ us.length)
+    (hv : ∀ r x, wn[r]? = some x → 0 < x → valid r = true) :
+    ∃ out, generate true cands (normCdf wn) valid n us = some (n, out, us.drop n) := by
+  obtain ⟨mrows, hm⟩ := c18_draw_no_error cands wn hlen hnn hs (us.take n)
+    (fun u hu' => hu u (List.mem_of_mem_take hu'))
+  have hfrom := C18.drawRows_from true cands (normCdf wn) (fun u => 0 ≤ u ∧ u < 1) _ _ hm
+    (fun u hu' => hu u (List.mem_of_mem_take hu'))
+  have hval : ∀ rc ∈ mrows, valid rc.1 = true := by
+    intro rc hrc
+    obtain ⟨u, hU, hr⟩ := hfrom rc hrc
+    obtain ⟨x, hx, hpos⟩ := C18.choice_valid wn u hnn hs hU.1 hU.2
+    rw [hr]
+    exact hv _ x hx hpos
+  obtain ⟨out, hout⟩ := C18.genDss_all_valid cands (normCdf wn) valid mrows hval
+    (uniq (mrows.map (·.2.ds))) (us.drop n)
+  refine ⟨out, ?_⟩
+  unfold generate
+  rw [if_neg (by omega), hm]
+  simp only [hout]
+
+end gen
+
 /-! ## non-vacuity -/
 
 -- the guards of the distribution theorems are met by the design's witness
